@@ -2,6 +2,7 @@ import DilithiumVerif.Lemmas.IterComplete
 import DilithiumVerif.Lemmas.SignLoop
 import DilithiumVerif.Lemmas.Containers
 import DilithiumVerif.Lemmas.ShakeSmall
+import DilithiumVerif.Props.C12
 /-
   Lemmas.EndToEnd — keypair, then signature, then verify: every signature the model's `signature` returns under a key
   the model's `keypair` returned is accepted by the model's `verify`.
@@ -141,5 +142,80 @@ theorem sign_then_verify (p : Params) (hp : p ∈ allParams) (seed : Option (Lis
   simp only
   rw [hmu, ok_bind, hct, ok_bind]
   simp
+
+end DV.Complete
+
+namespace DV.Complete
+open DV DV.NttSem DV.PolySem DV.VecSem DV.RoundSem DV.NttMul DV.NttZ DV.Ranges DV.Containers DV.ShakeSmall
+
+set_option maxHeartbeats 1600000 in
+/-- **What every emitted signature satisfies (C06).** For a key pair from `keypair` and any signature returned by
+    `signature`: the secret key decodes to (ρ, tr, K, t0, s1, s2) in the key-generation ranges, the signature decodes
+    canonically to (c̃, z, h), and there is an iteration κ whose mask y, w = A·y, HighBits/LowBits, c·s2 and c·t0 satisfy
+    the facts of `SignFacts` / `SignSecret`: ‖z‖∞ < γ1−β, at most ω hints, y = z − c·s1 is the expanded mask,
+    ‖LowBits(A·y − c·s2)‖∞ < γ2−β with HighBits(A·y − c·s2) = HighBits(A·y) = w1, ‖c·t0‖∞ < γ2, c̃ = H(μ ‖ w1Encode(w1)). -/
+theorem emitted_signature_facts (p : Params) (hp : p ∈ allParams) (seed : Option (List Nat)) (tape : Tape) (pk sk : List Nat) (tape' : Tape)
+    (hk : keypair p seed tape = .ok (pk, sk, tape'))
+    (fuel : Nat) (msg : List Nat) (randomized : Bool) (tape2 : Tape) (sig : List Nat) (tape3 : Tape)
+    (hs : signature p fuel msg sk randomized tape2 = .ok (some sig, tape3)) :
+    ∃ (rho tr key : List Nat) (s1 s2 t1 t0 : PolyVec) (mat : List PolyVec) (mu rp : List Nat) (κ : Nat)
+      (ct : List Nat) (cp : Poly) (z h w1 a0 y w w0 cs2 r0 ct0 : PolyVec),
+      unpack_sk p sk = .ok (rho, tr, key, t0, s1, s2) ∧ matrix_expand p FUEL rho = .ok mat ∧ KeyFacts p mat s1 s2 t1 t0 ∧
+      compute_mu tr p.trBytes msg = .ok mu ∧ κ < fuel ∧
+      unpack_sig p sig = .ok (true, ct, z, h) ∧
+      SignFacts p mat s1 s2 t0 mu sig ct cp z h w1 a0 ∧
+      SignSecret p mat s1 s2 t0 rp (κ : Int) cp z w1 a0 y w w0 cs2 r0 ct0 := by
+  obtain ⟨_, _, _, _, hg1, _⟩ := params_facts p hp
+  obtain ⟨_, htrR, _, _, _⟩ := e2e_facts p hp
+  unfold keypair at hk
+  obtain ⟨⟨s, tp⟩, _, hk⟩ := bind_eq_ok.mp hk
+  simp only at hk
+  obtain ⟨⟨rho, key, s1, s2, t1, t0⟩, hcore, hk⟩ := bind_eq_ok.mp hk
+  simp only at hk
+  obtain ⟨pk0, hpk, hk⟩ := bind_eq_ok.mp hk
+  obtain ⟨tr, htr, hk⟩ := bind_eq_ok.mp hk
+  obtain ⟨sk0, hsk, hk⟩ := bind_eq_ok.mp hk
+  injection hk with hk; injection hk with hpk0 hk; injection hk with hsk0 _
+  subst hpk0; subst hsk0
+  obtain ⟨mat, hme, kf⟩ := keygen_facts p hp _ rho key s1 s2 t1 t0 hcore
+  obtain ⟨hrl, hkl⟩ := keygen_core_lengths p _ rho key s1 s2 t1 t0 hcore
+  have htrl : tr.length = p.trBytes := by
+    unfold shake256n at htr
+    exact shake256_small_length _ _ _ _ htrR (Nat.le_refl _) tr htr
+  obtain ⟨sk', hsk', husk⟩ := unpack_pack_sk p hp rho tr key t0 s1 s2 hrl hkl htrl kf.s1l kf.s2l kf.t0l
+    (fun a ha => by rw [etaB_eq]; exact kf.s1s a ha) (fun a ha => by rw [etaB_eq]; exact kf.s2s a ha) kf.t0s
+  rw [hsk] at hsk'; injection hsk' with hsk'; subst hsk'
+  unfold signature at hs
+  rw [husk, ok_bind] at hs
+  simp only at hs
+  obtain ⟨mu, hmu, hs⟩ := bind_eq_ok.mp hs
+  obtain ⟨⟨rhoprime, tp2⟩, _, hs⟩ := bind_eq_ok.mp hs
+  simp only at hs
+  rw [hme, ok_bind] at hs
+  obtain ⟨s1h, e1, hs⟩ := bind_eq_ok.mp hs
+  obtain ⟨s2h, e2, hs⟩ := bind_eq_ok.mp hs
+  obtain ⟨t0h, e0, hs⟩ := bind_eq_ok.mp hs
+  obtain ⟨r, hloop, hs⟩ := bind_eq_ok.mp hs
+  injection hs with hs; injection hs with hr _; subst hr
+  obtain ⟨j, hj, hacc, _⟩ := C01.sign_loop_some p mat mu rhoprime s1h s2h t0h fuel 0 sig hloop
+  have Hy : ∀ y, l_uniform_gamma1 p rhoprime ((0 : Int) + j) = .ok y → y.length = p.l ∧ ∀ a ∈ y, PolyOK ((p.gamma1 : Int) + 1) a := by
+    intro y hy
+    have := l_uniform_gamma1_range p rhoprime _ y hy
+    exact ⟨this.1, fun a ha => ⟨(this.2 a ha).1, fun x hx => by have := (this.2 a ha).2 x hx; rw [hg1]; omega⟩⟩
+  have Hc : ∀ ct cp, poly_challenge p FUEL ct = .ok cp → PolyOK 2 cp := by
+    intro ct cp h
+    have := challenge_tern p FUEL ct cp h
+    exact ⟨this.1, fun x hx => by have := this.2 x hx; omega⟩
+  obtain ⟨ct, cp, z, h, w1, a0, sf, y, w, w0, cs2, r0, ct0, ss⟩ := sign_facts_full p hp mat kf.mat_ok s1 s2 t0 s1h s2h t0h
+    (keyData_of_facts p mat s1 s2 t1 t0 s1h s2h t0h kf e1 e2 e0) mu rhoprime _ sig Hy Hc hacc
+  have hctl := compute_ctilde_length p mu _ ct sf.hct
+  obtain ⟨sig', hpack', _, husig⟩ := unpack_pack_sig p hp ct z h hctl sf.zl
+    (fun a ha => ⟨(sf.zb a ha).1, fun x hx => by have := (sf.zb a ha).2 x hx; rw [← hg1]; omega⟩)
+    (by rw [sf.hint.length.2, ← sf.hint.length.1, sf.w1l]) sf.hbits sf.hw
+  rw [sf.hpack] at hpack'; injection hpack' with hpack'; subst hpack'
+  have e : ((0 : Int) + (j : Int)) = ((j : Nat) : Int) := by omega
+  rw [e] at ss
+  exact ⟨rho, tr, key, s1, s2, t1, t0, mat, mu, rhoprime, j, ct, cp, z, h, w1, a0, y, w, w0, cs2, r0, ct0,
+    husk, hme, kf, hmu, hj, husig, sf, ss⟩
 
 end DV.Complete
